@@ -2,9 +2,12 @@
 current grammar docstrings + every p_* action + p_error + ModelLoader.input) is executed symbolically on a token
 STRING that is not text: the token kinds are solver-chosen from the loader's whole token alphabet (lazily, one
 bisection per token actually requested by the driver, so that only viable prefixes are extended) and the token
-TEXTS (identifier spellings, numbers, strings, phrases, relationship ids) are unconstrained symbolic strings.
+TEXTS are solver-chosen from a small pool of members of the kind's language (numbers 1 / 7, names M / MC / x,
+strings with and without content ...).  Unconstrained symbolic texts were tried first and dropped: the diagnostics
+are built with the % operator, which realises a symbolic string (never exhausts), and a text outside the kind's
+language would break the scanner's contract (a correct action may rely on a NUMBER being digits).
 PLY's scanner is replaced by a stub that hands these tokens out (contract of the scanner: a token has a kind of
-the alphabet, a text, a line and an offset).
+the alphabet, a text of that kind's language, a line and an offset).
 
 Oracle (independent recursive-descent reading of the token string, written from the documented SQL subset):
   * the reference accepts  <=>  input() returns; then the statements appended to the loader are exactly the
@@ -24,12 +27,15 @@ LAST_DIFF = None
 RESERVED = list(L.ModelLoader.reserved)
 OTHER = [t for t in L.ModelLoader.tokens if t not in RESERVED]
 SPELL = {w: w[0] + w[1:].lower() for w in RESERVED}          # the scanner keeps the spelling of the text: 'Create'
+POOL = {'NUMBER': ['1', '7'], 'ID': ['M', 'MC', 'x'], 'STRING': ["'p q'", "''"], 'RELID': ['R1'], 'FRACTION': ['1.5'], 'GUID': ['"g"'],
+        'CARDINALITY': ['1C'], 'COMMA': [','], 'LPAREN': ['('], 'RPAREN': [')'], 'MINUS': ['-'], 'SEMICOLON': [';']}
 ALPHAS = {
     'full': RESERVED + OTHER,
     # identifiers represented by a plain name and three reserved words; all statement keywords in their roles
     'small': ['CREATE', 'TABLE', 'INSERT', 'INTO', 'VALUES', 'ROP', 'REF_ID', 'FROM', 'TO', 'PHRASE', 'UNIQUE',
               'INDEX', 'ON', 'TRUE', 'FALSE'] + OTHER,
     'values': ['TRUE', 'FALSE', 'COMMA', 'FRACTION', 'GUID', 'ID', 'MINUS', 'NUMBER', 'RPAREN', 'STRING', 'SEMICOLON', 'LPAREN'],
+    'ids': ['ID', 'TRUE', 'COMMA', 'RPAREN', 'SEMICOLON', 'LPAREN', 'NUMBER', 'STRING'],
     'ends': ['PHRASE', 'TO', 'FROM', 'CARDINALITY', 'COMMA', 'ID', 'LPAREN', 'NUMBER', 'RPAREN', 'SEMICOLON', 'STRING', 'TRUE', 'RELID'],
 }
 ALPHA = ALPHAS[PARAMS.get('alpha', 'full')]
@@ -68,7 +74,8 @@ class Tokens(object):
         elif i - len(PREFIX) < self.n:
             j = i - len(PREFIX)
             ty = ALPHA[cs(self.kinds[j], 0, NA - 1)]
-            r = (ty, SPELL[ty] if ty in SPELL else self.texts[j])
+            pool = POOL.get(ty)
+            r = (ty, SPELL[ty] if ty in SPELL else pool[cs(self.texts[j], 0, len(pool) - 1)])
         elif i - len(PREFIX) - self.n < len(SUFFIX):
             r = tuple(SUFFIX[i - len(PREFIX) - self.n])
         else:
@@ -235,9 +242,10 @@ def same(a, b):
 
 
 def check_tokens(n: int, k0: int, k1: int, k2: int, k3: int, k4: int, k5: int, k6: int,
-                 v0: str, v1: str, v2: str, v3: str, v4: str, v5: str, v6: str) -> bool:
+                 v0: int, v1: int, v2: int, v3: int, v4: int, v5: int, v6: int) -> bool:
     """
     pre: 0 <= n <= NMAX
+    pre: 0 <= v0 <= 2 and 0 <= v1 <= 2 and 0 <= v2 <= 2 and 0 <= v3 <= 2 and 0 <= v4 <= 2 and 0 <= v5 <= 2 and 0 <= v6 <= 2
     pre: 0 <= k0 < NA and 0 <= k1 < NA and 0 <= k2 < NA and 0 <= k3 < NA and 0 <= k4 < NA and 0 <= k5 < NA and 0 <= k6 < NA
     post: POST(_)
     """
